@@ -44,6 +44,13 @@ crate::harnesses! {
         assert!(y >= (1u128 << 127), "x << lz has the top bit set");
         if x >= (1u128 << 64) { assert!(lz <= 63, "values of more than 64 bits have at most 63 leading zeros"); }
     }
+    // assume_specification [u64::count_ones] (unit popcount): the recursive definition pop(v) = v % 2 + pop(v / 2)
+    #[cfg_attr(kani, kani::unwind(66))] fn core_specs_u64_count_ones_spec() {
+        let x: u64 = any();
+        let mut v = x; let mut n = 0u32;
+        while v != 0 { n += (v % 2) as u32; v /= 2; }
+        assert!(x.count_ones() == n, "count_ones == number of ones of the binary expansion");
+    }
     // assume_specification [<i8 as From<bool>>::from] and [core::cmp::min]
     fn core_specs_i8_from_bool_and_min_spec() {
         assert!(i8::from(true) == 1 && i8::from(false) == 0, "i8::from(bool)");
